@@ -525,7 +525,7 @@ func (in *Interp) now() *Term {
 	ts := in.ts
 	t := in.fresh("now", 64)
 	in.assume(ts.Cmp(OpSlt, ts.BV(64, 0), t))
-	in.assume(ts.Cmp(OpSlt, t, ts.BV(64, 1<<62)))
+	in.assume(ts.Cmp(OpSlt, t, ts.BV(64, 1<<47)))
 	if in.lastNow != nil {
 		in.assume(ts.Cmp(OpSle, in.lastNow, t))
 	}
